@@ -51,6 +51,43 @@ def replay_stall(name, conc, notes):
             "detail": f"the loop stayed responsive in every scenario tried: {tried}"}
 
 
+def replay_stranded(name, conc, notes):
+    """requests queued in one go, some of them already cancelled by their
+    owners: every live request must be shipped"""
+    import asyncio
+    from ebpfcat.ethercat import ECCmd, EtherCat
+    bad = []
+    for pattern in ("L", "LC", "LLC", "CL", "LCC", "LCL"):
+        async def go():
+            ec = object.__new__(EtherCat)
+            ec.send_queue = asyncio.Queue()
+            ec.wait_futures = {}
+            shipped = []
+
+            async def pp(dgrams, packet):
+                shipped.extend(f for _, _, f in dgrams)
+            ec.process_packet = pp
+            futs = []
+            for ch in pattern:
+                fut = asyncio.get_event_loop().create_future()
+                if ch == "C":
+                    fut.cancel()
+                futs.append((ch, fut))
+                ec.send_queue.put_nowait((ECCmd.FPRD, bytes(4), 0, 1, 2, fut))
+            task = asyncio.ensure_future(ec.sendloop())
+            for _ in range(8):
+                await asyncio.sleep(0)
+            task.cancel()
+            return [i for i, (ch, f) in enumerate(futs) if ch == "L" and f not in shipped]
+        missing = asyncio.run(go())
+        if missing:
+            bad.append((pattern, missing))
+    return {"inputs": {"queued at once (L live, C cancelled by its owner)": ["L", "LC", "LLC", "CL", "LCC", "LCL"]},
+            "reproduced": True if bad else None,
+            "detail": f"real sendloop: live requests that were never handed to process_packet although the queue "
+                      f"ran empty: {bad}"}
+
+
 def verify(rep):
     from contracts import c12_sendloop as S
     from vc.pyvc import api
@@ -59,6 +96,7 @@ def verify(rep):
     try:
         api.verify(S.sendloop, rep, options={"inline": set()},
                    replay=lambda n, i, nt: replay_stall(n, i, nt) if "without_progress" in n else
+                   replay_stranded(n, i, nt) if "a_batch_waits" in n or "no batched request" in n else
                    {"inputs": i, "reproduced": None, "detail": "no native harness for this clause"})
     finally:
         api.REGISTRY.clear()
